@@ -67,11 +67,21 @@ func (executor) EndBlock(*types.Block, events.Fireable, *types.PartSetHeader, []
 // probeReactor is the node-side end of the harness channel.
 type probeReactor struct {
 	p2p.BaseReactor
-	got chan []byte
+	mu      sync.Mutex
+	waiters map[string]chan struct{}
+}
+
+// expect registers a nonce and returns the channel closed on its arrival.
+func (r *probeReactor) expect(nonce []byte) chan struct{} {
+	ch := make(chan struct{})
+	r.mu.Lock()
+	r.waiters[string(nonce)] = ch
+	r.mu.Unlock()
+	return ch
 }
 
 func newProbeReactor() *probeReactor {
-	r := &probeReactor{got: make(chan []byte, 64)}
+	r := &probeReactor{waiters: map[string]chan struct{}{}}
 	r.BaseReactor = *p2p.NewBaseReactor("VerifProbe", r)
 	return r
 }
@@ -82,10 +92,12 @@ func (r *probeReactor) GetChannels() []*p2p.ChannelDescriptor {
 func (r *probeReactor) AddPeer(*p2p.Peer)                 {}
 func (r *probeReactor) RemovePeer(*p2p.Peer, interface{}) {}
 func (r *probeReactor) Receive(ch byte, src *p2p.Peer, bz []byte) {
-	select {
-	case r.got <- append([]byte(nil), bz...):
-	default:
+	r.mu.Lock()
+	if ch, ok := r.waiters[string(bz)]; ok {
+		delete(r.waiters, string(bz))
+		close(ch)
 	}
+	r.mu.Unlock()
 }
 
 // Node is the honest node under test.
